@@ -61,6 +61,33 @@ pub fn handle(op: &str, a: &[&str]) -> Option<Resp> {
                     }
                     Err(_) => fail = Some("read_relaxed io error".to_string()),
                 }
+                // the same through readers that return short reads (1 and 3 bytes at a time): a
+                // multi-byte character then lies across two read() calls
+                for step in [1usize, 3] {
+                    if fail.is_some() || s.is_ascii() {
+                        break;
+                    }
+                    match Deb822::read_relaxed(Dribble { data: s.as_bytes(), step }) {
+                        Ok((d3, e3)) => {
+                            if d3.to_string() != s || e3.is_empty() != errs.is_empty() {
+                                fail = Some(format!("read_relaxed over a reader returning {} byte(s) per call differs from from_str_relaxed", step));
+                            }
+                        }
+                        Err(_) => fail = Some("read_relaxed io error (short reads)".to_string()),
+                    }
+                    match Deb822::read(Dribble { data: s.as_bytes(), step }) {
+                        Ok(d4) => {
+                            if d4.to_string() != s || !errs.is_empty() {
+                                fail = Some("read over short reads differs from from_str".to_string());
+                            }
+                        }
+                        Err(_) => {
+                            if errs.is_empty() {
+                                fail = Some("read over short reads failed where from_str succeeds".to_string());
+                            }
+                        }
+                    }
+                }
                 match Deb822::read(s.as_bytes()) {
                     Ok(d4) => {
                         if d4.to_string() != s || !errs.is_empty() {
@@ -124,6 +151,21 @@ fn lookup_keys(keys: Vec<String>) -> Vec<String> {
     all.extend(own.iter().map(|k| swap_case(k)));
     all.push("Zz".to_string());
     dedup(all)
+}
+
+/// a reader that hands out at most `step` bytes per read() call
+struct Dribble<'a> {
+    data: &'a [u8],
+    step: usize,
+}
+
+impl<'a> std::io::Read for Dribble<'a> {
+    fn read(&mut self, buf: &mut [u8]) -> std::io::Result<usize> {
+        let n = self.step.min(buf.len()).min(self.data.len());
+        buf[..n].copy_from_slice(&self.data[..n]);
+        self.data = &self.data[n..];
+        Ok(n)
+    }
 }
 
 fn dedup(v: Vec<String>) -> Vec<String> {
@@ -459,5 +501,20 @@ pub fn generate_c03(tier: &str, seed: u64, out: &mut Out) {
 pub fn generate_c01(tier: &str, seed: u64, out: &mut Out) {
     for t in gen_texts(tier, seed) {
         out.req("deb.read", &[es(&t)]);
+    }
+    // long inputs whose multi-byte characters lie across every power-of-two block boundary up to
+    // 16 KiB (a reader that decodes block by block would split them)
+    for pre in ["A: ", "A:  ", "# c\nB: "] {
+        for ch in ["é", "€", "😀"] {
+            let mut t = String::from(pre);
+            while t.len() < 20_000 {
+                for _ in 0..60 {
+                    t.push_str(ch);
+                }
+                t.push_str("\n ");
+            }
+            t.push_str("x\n");
+            out.req("deb.read", &[es(&t)]);
+        }
     }
 }
